@@ -385,7 +385,7 @@ impl Prop for C03 {
         let mut s = Src::new(bytes);
         let lc = LayoutCfg::default();
         let cfg = GenCfg::default();
-        let fam = s.weighted(&[10, 2, 3, 2]);
+        let fam = s.weighted(&[10, 2, 3, 2, 3]);
         let (text, family) = match fam {
             0 => {
                 let m = gen::file(&mut s, &cfg);
@@ -410,10 +410,37 @@ impl Prop for C03 {
                 };
                 (t, "lexical-in-slot")
             }
-            _ => {
+            3 => {
                 // well-formed document, unmodified
                 let d = crate::doccase::gen_doc(&mut s, &cfg, &lc)?;
                 (d.laid.text, "well-formed")
+            }
+            _ => {
+                // random sentence derived from the transcribed grammar itself (independent of the
+                // document model), sometimes with one token mutated
+                let budget = s.range(6, 14);
+                let kinds = crate::refgram::with_grammar(|g| g.random_sentence(&mut s, budget));
+                let mut toks: Vec<String> = kinds
+                    .iter()
+                    .map(|k| match k {
+                        K::Ident => (*s.pick(gen::IDENTS)).to_owned(),
+                        K::Integer => (*s.pick(gen::CODES)).to_owned(),
+                        K::Float => (*s.pick(gen::FLOAT_LITS)).to_owned(),
+                        K::QuotedString => (*s.pick(gen::STR_LITS)).to_owned(),
+                        K::Boolean => (*s.pick(gen::BOOL_LITS)).to_owned(),
+                        K::Annotation => (*s.pick(gen::ANNOS)).to_owned(),
+                        K::Primitive => (*s.pick(crate::tok::PRIMITIVES)).to_owned(),
+                        K::Direction => (*s.pick(&["in", "out", "inout"])).to_owned(),
+                        other => other.repr().to_owned(),
+                    })
+                    .collect();
+                if s.chance(1, 3) {
+                    mutate::mutate_tokens(&mut s, &mut toks, &[], true);
+                }
+                if toks.len() > 400 {
+                    toks.truncate(400);
+                }
+                (super::c04::join(&mut s, &toks, &lc), "grammar-sentence")
             }
         };
         self.run_text(&text, family, st, || bytes_case(bytes, json!({"text": text})))
